@@ -4,6 +4,18 @@ import json
 
 # id -> (technique, level text, level_note, design_ref)
 CLAIMED = {
+ "C14": ("stateless exploration (E1) with map-iteration starts owned as environment choices (deviation bound 1 quick / 2 thorough) over segments x radii x skip flag; relational oracle + independent ECEF distance",
+         "For every input of the alphabet every execution within the deviation bound is checked: duplicate-free, requested zooms, superset of the line, radius 0 = line, added IDs inside the maximal fitted-layer box, measured subset of skipped, no added voxel beyond the radius by an independent segment-to-quadrilateral distance, and identical result across executions.",
+         "Trusted: runtime overlay (7 patched files), ref.SegQuadDist/ECEF. Lines <= 12 voxels, radii <= 2.5 voxel widths and below 80% of the largest reachable chord (the layer fit does not terminate beyond).", "4/C14"),
+ "C16": ("stateless exploration (E1) with map-iteration starts owned as environment choices: operations x argument lists x permutations/duplications x all executions within the deviation bound, each compared with the default-order result of the base list",
+         "15 list operations x 5-7 base lists per world x all permutations and doublings, plus line and corridor queries on 5 segments x 5 modes; every map iteration in the library and its dependencies is a choice point (quick: <= 1 deviation, thorough: <= 2 deviations and 2 hash seeds); results must be one set per argument set, duplicate-free where documented, inputs untouched.",
+         "Trusted: runtime overlay. Enumerates start bucket x offset of the runtime's iteration, not all n! orders the language allows; maps above 52 entries are offered 64 starts (counted as capped).", "4/C16"),
+ "C17": ("exhaustive choice-tree enumeration (E1) of voxels x output zooms x dyadic and non-dyadic height ranges in both directions vs exact rational subdivision",
+         "Voxels inside, straddling and outside each of 7 ranges x zoom alphabets: the returned run must be contiguous, within 0..2^z-1, and equal to [idx(bottom), idx(top)] of the exact subdivision (decisive for dyadic ranges, 64-ulp band otherwise); the inverse must cover the cell interval; reversed ranges are errors.",
+         "Trusted: big.Rat subdivision. Runs above 4096 cells skipped and counted.", "4/C17"),
+ "C18": ("exhaustive choice-tree enumeration (E1) of a point alphabet x list shapes for EPSG:3857 vs closed-form spherical Mercator and round trip; every code of the bundled EPSG table; unknown codes",
+         "600 points (domain edges, both hemispheres, 6 altitudes) for the numeric claims, all list shapes up to length 3 for order/length, every EPSG code with a covered candidate point for the structural claims. One known finding (altitude perturbs the horizontal result) is listed in known_findings.json and matched only when the same point passes at altitude 0.",
+         "Closed-form reference with 1e-6 m / 2e-10 degree tolerances.", "4/C18"),
  "C01": ("exhaustive choice-tree enumeration (E1) of zoom pairs x boundary-centred coordinate alphabets vs exact rational (x,f) and tolerance-banded (y) references",
          "All zoom pairs x longitudes/altitudes at, one ulp either side of, and near every boundary class (incl. +-180, 0, the 2^25 m limits) are decided against exact big.Rat floors; latitudes either side of row boundaries against a banded reference; index range always; list length/order and nil rejection on all lists up to length 3.",
          "Trusted: big.Rat arithmetic; float64 asinh(tan) with a 2^-43 undecided band. Coordinates between boundary neighbourhoods not covered.", "4/C01"),
